@@ -16,7 +16,8 @@ EXPLANATION = (
     "fields. L2 on the local branch __setattr__ delegates to super().__setattr__(name, value) with the same name and "
     "value, on the other branch it does setattr(self.target, name, value); __getattr__ falls through to "
     "getattr(self.target, name) without a default (AttributeError for a missing attribute). L3 SymlinkNodeMixin and "
-    "SymlinkNode override no structural or navigation member of NodeMixin (so C01-C03 apply unchanged). L4 "
+    "SymlinkNode override no structural or navigation member of NodeMixin (so C01-C03 apply unchanged); a __delattr__, if defined, keeps the same names "
+    "local as __setattr__ and forwards only the rest. L4 "
     "SymlinkNode.__init__ assigns self.target first, stores **kwargs on the target, then delegates parent/children to "
     "the setters. Independence of the link's and the target's positions then follows from C01 W1. Not decided: run-time "
     "chains of links for arbitrary names."
@@ -193,9 +194,26 @@ def run(ctx):
                      construct="%s overrides %s" % (cname, over))
         else:
             ctx.inst("L3", "%s %s" % (cls.module.relpath, cname), "members %s" % sorted(cls.members), "no NodeMixin member overridden")
-        if "__getattribute__" in cls.members or "__delattr__" in cls.members:
+        if "__getattribute__" in cls.members:
             f = next(iter(cls.funcs()))
             ctx.viol("L3", f, f.node, "%s intercepts attribute access beyond __getattr__/__setattr__" % cname, construct="%s defines __getattribute__/__delattr__" % cname)
+        if "__delattr__" in cls.members and isinstance(cls.members["__delattr__"], Func):
+            # deletion is the third way to touch an attribute: like __setattr__ it must keep the link's own names (link fields,
+            # parent, children, target) on the link and may forward only the rest to the target
+            da = cls.members["__delattr__"]
+            dtabs = local_table(da, da.posparams[1], p)
+            dkeep = set().union(*[t for _, t in dtabs]) if dtabs else set()
+            need_d = links | {"parent", "children", "target"}
+            fwd_d = [c_ for c_ in walk_own(da.node) if isinstance(c_, ast.Call) and norm(c_.func) == "delattr"
+                     and c_.args and norm(c_.args[0]) == "%s.target" % da.selfname]
+            if fwd_d and not need_d <= dkeep:
+                ctx.viol("L3", da, dtabs[0][0] if dtabs else da.node, "names kept local by __delattr__ %s miss %s: `del link.%s` is carried out on "
+                         "the target instead of the link" % (sorted(dkeep), sorted(need_d - dkeep), sorted(need_d - dkeep)[0]),
+                         construct="__delattr__ local names miss %s" % sorted(need_d - dkeep))
+            elif fwd_d:
+                ctx.inst("L3", da, dtabs[0][0], "__delattr__ keeps %s local and forwards the rest" % sorted(dkeep))
+            else:
+                ctx.inst("L3", da, da.node, "__delattr__ never touches the target")
     if [b.name for b in p.cls("SymlinkNodeMixin").bases] != ["NodeMixin"] or [b.name for b in p.cls("SymlinkNode").bases] != ["SymlinkNodeMixin"]:
         c = p.cls("SymlinkNode")
         ctx.viol("L3", None, c.node, "symlink classes no longer derive NodeMixin ← SymlinkNodeMixin ← SymlinkNode", construct="symlink class bases",
